@@ -450,6 +450,78 @@ class Spellings(Part):
         return res
 
 
+class BlankSalt(Part):
+    name = "blank_salt_in_every_spelling"
+    desc = "an empty salt on the command line or in the config file: the run uses THAT salt (two runs agree, the library with salt='' agrees) and an accepted --undo with it restores the input; a refused run writes nothing"
+
+    WAYS = [("cli", ["-s", ""]), ("cli", ["--salt="]), ("cli", ["--salt", ""]), ("cfg", "salt =\n"), ("cfg", "salt=\n")]
+
+    def __init__(self, tier, seed):
+        self.tier, self.seed = tier, seed
+
+    def cases(self):
+        return [{"way": i, "extra": e} for i in range(len(self.WAYS)) for e in ([], ["-p"], ["-w", "seattle"], ["-n", "65001"])]
+
+    def run(self, case):
+        from netconan.anonymize_files import anonymize_files
+
+        res = Res()
+        box = Box()
+        try:
+            kind, w = self.WAYS[case["way"]]
+            salt_args = (w if kind == "cli" else ["-c", "{cfg}"])
+            cfg_text = w if kind == "cfg" else None
+            runs = []
+            for k in range(2):
+                d = box.fresh()
+                runs.append(run_main(d, ["-a", "-i", "{in}", "-o", "{out}"] + salt_args + case["extra"], cfg_text))
+                if k == 0 and runs[0][0] == "ok" and runs[0][1]:
+                    # undo what was just written, giving the salt the same way
+                    os.rename(os.path.join(d, "out"), os.path.join(d, "anon"))
+                    und = run_main(d, ["-u", "-i", os.path.join(d, "anon"), "-o", "{out}"] + salt_args, cfg_text)
+                    res.evals += 1
+                    if und[0] == "ok":
+                        back = (und[1] or {}).get("r1.cfg")
+                        # with addresses as the only feature the undone file is the input again
+                        if not case["extra"] and back != INPUT.encode():
+                            a, b = INPUT.split("\n"), (back or b"").decode().split("\n")
+                            k = [x for x in range(min(len(a), len(b))) if a[x] != b[x]][:1]
+                            res.violation("accepted-undo-with-blank-salt-does-not-restore|%s" % kind,
+                                          "salt given as %r: anonymize then undo gives %r for %r" % (
+                                              w, b[k[0]] if k else None, a[k[0]] if k else None), case)
+                    elif und[1] is not None:
+                        res.violation("something-written-on-rejected-options|blank-salt-undo", "way %r" % (w,), case)
+                shutil.rmtree(d, ignore_errors=True)
+            res.evals += 1
+            res.nt((case["way"], tuple(case["extra"])))
+            res.out((runs[0][0], digest_tree(runs[0][1])))
+            if runs[0][0] != "ok":
+                res.count("blank_salt_refused")
+                if runs[0][1] is not None:
+                    res.violation("something-written-on-rejected-options|blank-salt", "way %r" % (w,), case)
+                return res
+            if runs[0][1] != runs[1][1]:
+                res.violation("two-runs-with-the-same-blank-salt-differ|%s" % kind,
+                              "salt given as %r, extra %r: outputs %s vs %s" % (w, case["extra"], digest_tree(runs[0][1]), digest_tree(runs[1][1])), case)
+            else:
+                d = box.fresh()
+                with seams.capture_logs(), seams.capture_stdio():
+                    e = case["extra"]
+                    anonymize_files(os.path.join(d, "in"), os.path.join(d, "lib"), anon_pwd="-p" in e, anon_ip=True, salt="",
+                                    sensitive_words=["seattle"] if "-w" in e else None, as_numbers=["65001"] if "-n" in e else None,
+                                    preserve_suffix_v4=8, preserve_suffix_v6=8)
+                lib = seams.read_tree(os.path.join(d, "lib"))
+                shutil.rmtree(d, ignore_errors=True)
+                if lib != runs[0][1]:
+                    res.violation("blank-salt-on-the-command-line-differs-from-library-salt-empty|%s" % kind,
+                                  "salt given as %r, extra %r" % (w, case["extra"]), case)
+            res.samples.append({"way": [kind, w], "extra": case["extra"]})
+        finally:
+            box.close()
+            seams.restore_globals()
+        return res
+
+
 def digest_tree(t):
     from mc.runner import digest
 
@@ -579,4 +651,4 @@ class Equivalences(Part):
 
 
 def parts(tier, seed):
-    return [Validation(tier, seed), Placement(tier, seed), Equivalences(tier, seed), ConfigNegatives(tier, seed), Spellings(tier, seed)]
+    return [Validation(tier, seed), Placement(tier, seed), Equivalences(tier, seed), ConfigNegatives(tier, seed), Spellings(tier, seed), BlankSalt(tier, seed)]
